@@ -810,7 +810,8 @@ class AbstractPathModelDAG(ABC):
             current_edge_position = 0
             path_temp = [self.G.source] + path
             for (u,v) in zip(path_temp[:-1], path_temp[1:]):
-                if round(edge_position_sol[(str(u), str(v), path_index)]) != current_edge_position:
+                # positions are sums of edge lengths, which need not be integer
+                if abs(edge_position_sol[(str(u), str(v), path_index)] - current_edge_position) > 1e-3:
                     return False
                 current_edge_position += self.G[u][v].get(self.length_attr, 1)
         return True
@@ -833,7 +834,7 @@ class AbstractPathModelDAG(ABC):
                 for (u,v) in zip(path_temp[:-1], path_temp[1:]):
                     path_length += self.G[u][v].get(self.length_attr, 1)   
 
-                if round(path_length_sol[(path_index)]) != path_length:
+                if abs(path_length_sol[(path_index)] - path_length) > 1e-3:
                     return False
     
     
